@@ -770,6 +770,14 @@ func (fr *Frame) binop(x *ssa.BinOp, st *BState) Val {
 	case token.SUB:
 		return scalar(t, sx("-", a.S, b.S))
 	case token.MUL:
+		_, ca := x.X.(*ssa.Const)
+		_, cb := x.Y.(*ssa.Const)
+		if e.opaqueMul && !ca && !cb {
+			// sound: whatever is proved holds for every interpretation of umul, multiplication included
+			e.decls2("(declare-fun umul (Int Int) Int)")
+			e.note("opaquemul: products of two non-constant integers are an uninterpreted function of their factors in this function")
+			return scalar(t, sx("umul", a.S, b.S))
+		}
 		return scalar(t, sx("*", a.S, b.S))
 	case token.QUO:
 		fr.safety(st, "div", not(eq(b.S, "0")), x.Pos(), "integer division by zero")
